@@ -546,8 +546,8 @@ fn main() {
         // C09: each security's figures in the combined ledger equal those of its transactions alone
         // (implementation vs implementation; canonical and shuffled rendering)
         if rec0.secs.len() >= 2 && findings.len() <= 50 {
-            for order in [Order::Canonical, Order::Shuffled(case_no as u64 + 99)] {
-                let rall = Render { base: bases[0], order, fills: Fills::One, lower: false, dividends: false, only: None };
+            for (order, fills) in [(Order::Canonical, Fills::One), (Order::Shuffled(case_no as u64 + 99), Fills::One), (Order::Shuffled(case_no as u64 + 199), Fills::Halves)] {
+                let rall = Render { base: bases[0], order, fills, lower: false, dividends: false, only: None };
                 let tall = render(rec0, &rall);
                 let cfg = &config;
                 let t2 = tall.clone();
